@@ -106,18 +106,32 @@ where
     /// Observe new data point.
     pub fn add(&mut self, obj: T) {
         let t = self.k * 4; // TODO: make this a parameter
+        #[cfg(feature = "verif_hooks")]
+        if (self.i >= t) && (self.i < self.skip_until) {
+            crate::verif::hit(crate::verif::Event::ResGapSkip);
+        }
 
         if self.i < self.k {
             // initial fill-up
+            #[cfg(feature = "verif_hooks")]
+            crate::verif::hit(crate::verif::Event::ResFill);
             self.reservoir.push(obj)
         } else if self.i < t {
             // normal reservoir sampling
             let j: usize = self.rng.gen_range(0..self.i);
+            #[cfg(feature = "verif_hooks")]
+            crate::verif::hit(if j < self.k {
+                crate::verif::Event::ResReplace
+            } else {
+                crate::verif::Event::ResNoReplace
+            });
             if j < self.k {
                 self.reservoir[j] = obj;
             }
         } else if self.i >= self.skip_until {
             // fast skipping approximation
+            #[cfg(feature = "verif_hooks")]
+            crate::verif::hit(crate::verif::Event::ResGapAccept);
             let j: usize = self.rng.gen_range(0..self.k);
             self.reservoir[j] = obj;
 
